@@ -124,6 +124,9 @@ fn gen_pcase(seed: u64, idx: u64, systematic: bool) -> PCase {
         script,
         kind,
         idx,
+        // one case in four: the first initial points of every chain are invalid, so that a pause can meet a chain
+        // in the middle of its initialisation retries
+        variant: if (idx / 42) % 4 == 3 { 4 } else { 0 },
     };
     PCase { base, gates, burst, hold_ms }
 }
